@@ -377,12 +377,32 @@ def run(ctx):
     eda = tlc_eda(ctx, models)
     ctx.notes["eda_patterns"] = {plist[i]: {"pivot": v[0], "pump": v[1]} for i, v in eda.items()}
     # ---- timing families
-    KEY = ["a", "0", "-", ".", ":", "/", "_", "A", " "]
+    KEY = ["a", "0", "-", ".", ":", "/", "_", "A", " ", "@"]
+    # separator + valid segment words of the non-regex parsers (release ids, NVRAs, UIDs, versions)
+    SEGMENTS = ["@a-1", "a-1@", "-a", "-1", ".1", "1.", ":a", "a:", "/a", "a/", "-updates", ".n", ".t.1"]
     atoms = set()
     for i, m in models.items():
         atoms.update(m["atoms"])
     edawords = ["".join(w) for _, w in eda.values()]
-    pumps = list(dict.fromkeys(edawords + sorted(atoms) + [a + b for a in KEY for b in KEY if a != b]))
+    # for every ambiguous pattern: a shortest word leading from the start to the pivot state (so the pump is reached at all)
+    access = []
+    for i, (piv, word) in eda.items():
+        m = models[i]
+        by = {}
+        for (_, u, a, w) in m["edges"]:
+            by.setdefault(u, []).append((a, w))
+        seen = {q: "" for q in m["starts"]}
+        queue = list(m["starts"])
+        while queue and piv not in seen:
+            u = queue.pop(0)
+            for a, w in by.get(u, []):
+                if w not in seen:
+                    seen[w] = seen[u] + a
+                    queue.append(w)
+        if piv in seen:
+            access.append((seen[piv], "".join(word)))
+    ctx.notes["eda_access_words"] = access
+    pumps = list(dict.fromkeys(edawords + SEGMENTS + sorted(atoms) + [a + b for a in KEY for b in KEY if a != b]))
     prefixes = ["", "a", "1", "a-1-", "a:"]
     suffixes = ["!", "", "-", ".", "\n", "é"]
     eps = sorted(entry_points())
@@ -399,6 +419,11 @@ def run(ctx):
                         for suf in suffixes[:3] if ctx.quick else suffixes:
                             body = (pump * n)[:max(1, min(n, SHORT - len(pre) - len(suf)))]
                             calls.append((ep, pre + body + suf))
+            for pre, pump in access:            # access word + pump^n + a character the pattern cannot match
+                for n in (16, 24, 32, 40):
+                    for suf in ("!", "\n", " "):
+                        body = (pump * n)[:max(len(pump), SHORT - len(pre) - len(suf))]
+                        calls.insert(0, (ep, pre + body + suf))
             calls = list(dict.fromkeys(calls))
             stalled = 0
             for k in range(0, len(calls), 100):
@@ -416,17 +441,26 @@ def run(ctx):
                     break
             ctx.distinct.update(core._digest(c) for c in calls)
         # growth for long inputs (single key atoms and TLC pump words)
-        grow = list(dict.fromkeys(edawords + KEY))
+        grow = list(dict.fromkeys(edawords + SEGMENTS + KEY))
         for ep in eps:
             if ep in stalled_eps:
                 continue
+            families = [(pre, pump, "!") for pre, pump in access]
             for pump in grow:
                 for pre, suf in ((("", "!"),) if ctx.quick else (("", "!"), ("a", ""), ("1", "\n"))):
+                    families.append((pre, pump, suf))
+            for pre, pump, suf in families:
+                if True:
                     prev = None
                     for n in (50, 100, 200, 400):
                         s = pre + pump * n + suf
                         t = timer.run([(ep, s)], 10.0)[0]
                         total += 1
+                        if t > 10.0:
+                            ctx.fail({"entry": ep, "input_family": [pre, pump, suf], "n": [n, n], "seconds": [t, t]},
+                                     "%s on %r + %r*%d + %r (%d characters) did not finish within 10 s"
+                                     % (ep, pre, pump, n, suf, len(s)), "growth")
+                            break
                         if prev is not None and prev[1] > 0.02 and t > prev[1] * 45:
                             ctx.fail({"entry": ep, "input_family": [pre, pump, suf], "n": [prev[0], n], "seconds": [prev[1], t]},
                                      "%s on %r + %r*n + %r: time grew from %.3fs (n=%d) to %.3fs (n=%d): more than 2^5.5 per doubling"
